@@ -137,8 +137,8 @@ def run(ctx):
     acc_in = []
     for c, (io, mo) in zip(cases, res):
         acc_in.append(c[0])
-        for l, i in zip(c[1:], io[1:]):
-            acc_in.append("%s => %s" % (l, i))
+        for l, i, m in zip(c[1:], io[1:], mo[1:]):
+            acc_in.append("%s => %s" % (l, G.adopt_model_tokens(i, m.lstrip("?"))))
     acc_out, rc, err = C.run_lines([driver, "accept"], acc_in, timeout=1800)
     if len(acc_out) != len(cases):
         broken.append(dict(kind="harness", what="acceptor run failed rc=%s %s" % (rc, err[-300:])))
